@@ -58,7 +58,7 @@ var c20step = []string{"s0", "s1", "s2", "s3", "s4", "s5"}
 func H_C20_clone() {
 	verifCapFork(true)
 	verifUnwind(40)
-	steps := 4
+	steps := 5
 	if verifTier() > 0 {
 		steps = 6
 	}
@@ -89,7 +89,7 @@ func H_C20_clone() {
 			all[x].s.Id(t1).Id(t2)
 			all[x].own = append(all[x].own, t1, t2)
 		case 2: // take a clone (at most 3)
-			if len(all) >= 4 {
+			if len(all) >= 3+verifTier() {
 				continue
 			}
 			c := all[x].s.Clone()
